@@ -139,6 +139,8 @@ type Unit struct {
 	localCells    []localCell
 	implOf        string
 	coverStatus   string
+	exitPCs       []Term
+	exitCover     string
 }
 
 type closureSite struct {
